@@ -294,7 +294,21 @@ func Faults(c *Ctx) error {
 		return nil
 	}
 	c.Stats.Rule = "one case = one real transfer with one injected fault (kind, operation index) followed by a fault-free follow-up transfer into the leftovers; non-trivial = the fault fired; distinct by (scenario, kind, index)"
-	for si, sc := range faultScenarios(c) {
+	scenarios := faultScenarios(c)
+	if c.What == "local" {
+		// the small scenarios with the faults that leave the stream intact (callbacks, source errors, a single failed
+		// send): used by the checks of the outcome properties - whenever Receive still reports success the destination
+		// must be what the source is
+		var keep []faultInput
+		for _, sc := range scenarios {
+			if strings.HasPrefix(sc.Scenario, "small/") {
+				sc.OnlyKinds = []string{"notify", "hasher", "open", "read", "walk", "S.sendErrOnce", "R.sendErrOnce"}
+				keep = append(keep, sc)
+			}
+		}
+		scenarios = keep
+	}
+	for si, sc := range scenarios {
 		srcDir := filepath.Join(c.Work, fmt.Sprintf("fsrc%d", si))
 		if err := os.MkdirAll(srcDir, 0755); err != nil {
 			return err
